@@ -27,7 +27,23 @@ def gen_case(rng, i):
     hk_beh = {t: rng.choice(['ok', 'ok', 'ok', 'close', 'garbage', 'stall']) for t in key}
     gex_style = rng.choice(['all', 'all', 'min2048', 'min2048', 'refuse', 'refuse', 'only1024', 'only1024', 'stall-once', 'garbage'] if i % 9 == 4 else ['all', 'min2048', 'refuse', 'only1024'])
     banner = rng.choice([b'SSH-2.0-OpenSSH_8.9', b'SSH-2.0-dropbear_2022.83'])
-    return {'key': key, 'kex': kex, 'hk_beh': hk_beh, 'gex_style': gex_style, 'banner': banner, 'rate': (i % 6 == 0), 'rate_answer': rng.choice(['ssh', 'garbage', 'close'])}
+    return {'key': key, 'kex': kex, 'hk_beh': hk_beh, 'gex_style': gex_style, 'banner': banner, 'rate': (i % 6 == 0), 'rate_answer': rng.choice(['ssh', 'garbage', 'close']),
+            'multi': (i % 7 == 3)}    # the target is a host NAME with several addresses, all of them answering
+
+
+# run in the audit process before the tool starts: one synthetic host name that resolves to three loopback addresses
+MULTI_NAME = 'multi.verif.test'
+MULTI_PRE = '''
+import socket
+_real_gai = socket.getaddrinfo
+def _gai(host, port, family=0, type=0, proto=0, flags=0):
+    if host == %r:
+        if family not in (0, socket.AF_INET):
+            raise socket.gaierror(-9, 'Address family for hostname not supported')
+        return [(socket.AF_INET, socket.SOCK_STREAM, 6, '', (a, port)) for a in ('127.0.0.1', '127.0.0.2', '127.0.0.3')]
+    return _real_gai(host, port, family, type, proto, flags)
+socket.getaddrinfo = _gai
+''' % MULTI_NAME
 
 
 def gex_fn(style):
@@ -79,7 +95,7 @@ def run(ctx):
             n_probe = 1 + len([t for t in tables()[0] if t in c['key']]) + 18
             spec['garbage_from'] = c.get('n_before_rate', n_probe)
             spec['garbage_bytes'] = b'0123456789' if c['rate_answer'] == 'garbage' else b''
-        srv = P.new_ssh2_server(spec, stall_limit=3.0)
+        srv = P.new_ssh2_server(spec, stall_limit=3.0, bind_addr='0.0.0.0' if c.get('multi') else '127.0.0.1')
         # garbage / stall host-key replies: faults keyed on the probe's reply message of the connection that asks for that type
         orig = srv.behaviour
 
@@ -90,10 +106,10 @@ def run(ctx):
         for t, b in c['hk_beh'].items():
             if b == 'garbage': hostkeys[t.encode()] = b'\xff' * 7
             if b == 'stall': hostkeys[t.encode()] = b'STALL'
-        args = ['-n', '-t', '1'] + ([] if c['rate'] else ['--skip-rate-test']) + ['127.0.0.1:%d' % srv.port]
+        args = ['-n', '-t', '1'] + ([] if c['rate'] else ['--skip-rate-test']) + ['%s:%d' % (MULTI_NAME if c.get('multi') else '127.0.0.1', srv.port)]
         t0 = time.time()
         try:
-            res = z.run(args, timeout=90)
+            res = z.run(args, timeout=90, pre=MULTI_PRE if c.get('multi') else None)
             time.sleep(0.15)
             log = list(srv.log)
             return {'rc': res['rc'], 'out': res['out'][-300:], 'err': res['err'][-300:], 'timed_out': res['timed_out'], 'conns': srv.conns(), 'phases': dict(srv.phases), 'log': log,
